@@ -13,6 +13,7 @@
 //!   setcol <o|uN> <0|1>                               UpdateConfig{fee_collector_addr}: 0 = `collector`, 1 = `collector2`
 //!   donate <u> <0|1|2> <amt>                          2 = LP tokens
 //!   swapbad <u> <dir> <off> <sent>                    ExecuteMsg::Swap naming a cw20 / mismatching funds
+//!   provbad <u> <d0> <d1> <k>                           ProvideLiquidity naming asset k with the wrong kind (native as Token{denom}, cw20 as NativeToken{address})
 //!   wdirect <u> <denom 0|1|2|3> <amt>                 ExecuteMsg::WithdrawLiquidity {} with one coin (asset denoms, ujunk) / 3 = no coin
 //!   wfake <u> <asset> <amt>                           cw20 asset `Send` carrying the WithdrawLiquidity hook
 //!   sfake <u> <amt>                                   LP-token `Send` carrying the Swap hook
@@ -547,7 +548,7 @@ impl PairEngine {
                 });
                 if let Outcome::Ok(_) = &o {
                     let post = w.observe();
-                    let share = post.users[r][2] - pre.users[r][2];
+                    let share = post.users[r][2].saturating_sub(pre.users[r][2]);
                     mon.stat(if pre.sup == 0 { "provide_ok_first" } else { "provide_ok_later" });
                     if share == 0 {
                         mon.stat("provide_ok_zero_share");
@@ -613,7 +614,7 @@ impl PairEngine {
                 });
                 if let Outcome::Ok(_) = &o {
                     let post = w.observe();
-                    let got = [post.users[u][0] - pre.users[u][0], post.users[u][1] - pre.users[u][1]];
+                    let got = [post.users[u][0].saturating_sub(pre.users[u][0]), post.users[u][1].saturating_sub(pre.users[u][1])];
                     mon.stat("withdraw_ok");
                     if amt + MIN_LIQ >= pre.sup {
                         mon.stat("withdraw_ok_all_but_locked");
@@ -653,7 +654,12 @@ impl PairEngine {
                     let post = w.observe();
                     for k in 0..2 {
                         // what the CONFIGURED collector received; the other collector must receive nothing
-                        let (delta, other) = if pre.use_b { (post.colb[k] - pre.colb[k], post.col[k] - pre.col[k]) } else { (post.col[k] - pre.col[k], post.colb[k] - pre.colb[k]) };
+                        let (delta, other) = if pre.use_b {
+                            (post.colb[k].saturating_sub(pre.colb[k]), post.col[k].saturating_sub(pre.col[k]))
+                        } else {
+                            (post.col[k].saturating_sub(pre.col[k]), post.colb[k].saturating_sub(pre.colb[k]))
+                        };
+                        mon.check("C07", "pair_collect_exact", post.col[k] >= pre.col[k] && post.colb[k] >= pre.colb[k], d(format!("{op}: a collector's balance fell")));
                         w.sent[k] += delta + other;
                         mon.check("C07", "pair_collect_to_configured_collector", other == 0, d(format!("{op}: asset {k}: the collector that is NOT configured received {other}")));
                         let above = pre.pend[k] > THRESHOLD;
@@ -743,6 +749,31 @@ impl PairEngine {
                     } else {
                         Err(cosmwasm_std::StdError::generic_err("no such asset").into())
                     }
+                })
+            }
+            ("provbad", 5) => {
+                let (u, d0, d1, k) = match (user(ws[1]), ws[2].parse::<u128>(), ws[3].parse::<u128>(), ws[4].parse::<usize>()) {
+                    (Some(a), Ok(b), Ok(c), Ok(dd)) if dd <= 1 => (a, b, c, dd),
+                    _ => return "bad-op".into(),
+                };
+                let ds = [d0, d1];
+                let o = 1 - k;
+                let mut funds: Vec<Coin> = vec![];
+                if w.kinds[o] && ds[o] > 0 {
+                    funds.push(coin(ds[o], w.denoms[o]));
+                }
+                // asset k with the wrong kind
+                let wrong = if w.kinds[k] {
+                    AssetInfo::Token { contract_addr: w.denoms[k].to_string() }
+                } else {
+                    AssetInfo::NativeToken { denom: w.tokens[k].as_ref().unwrap().to_string() }
+                };
+                let mut assets = [Asset { info: w.info(0), amount: d0.into() }, Asset { info: w.info(1), amount: d1.into() }];
+                assets[k].info = wrong;
+                let sender = w.users[u].clone();
+                let app = &mut w.app;
+                guarded(|| {
+                    app.execute_contract(sender.clone(), pair.clone(), &p::ExecuteMsg::ProvideLiquidity { assets: assets.clone(), slippage_tolerance: None, receiver: None }, &funds)
                 })
             }
             ("wdirect", 4) => {
@@ -891,8 +922,8 @@ impl PairEngine {
                 mon.stat("swap_ok_zero_return");
             }
             // what the receiver got and what the trader paid
-            let got = if to == u { post.users[to][ask] - pre.users[to][ask] } else { post.users[to][ask] - pre.users[to][ask] };
-            let paid = pre.users[u][dir] - post.users[u][dir];
+            let got = post.users[to][ask].saturating_sub(pre.users[to][ask]);
+            let paid = pre.users[u][dir].saturating_sub(post.users[u][dir]);
             // ---- C01: the swap fee stays in the reserves, the burn fee leaves, the protocol fee moves to the ledger
             let okm = attrs.len() == 1
                 && got == a[0]
@@ -1056,7 +1087,13 @@ impl PairEngine {
             let to = if rng.chance(4, 5) { u } else { rng.below(n) as usize };
             format!("swap {u} {dir} {off} {} {to}", Self::gen_ms(rng))
         } else if x < 98 {
-            match rng.below(3) {
+            match rng.below(4) {
+                3 => {
+                    let ub = o.users[u];
+                    let d0 = if rng.chance(1, 6) { 0 } else { (res[0] / (2 + rng.log_uniform(20))).clamp(1, ub[0].max(1)) };
+                    let d1 = if rng.chance(1, 6) { 0 } else { (res[1] / (2 + rng.log_uniform(20))).clamp(1, ub[1].max(1)) };
+                    format!("provbad {u} {d0} {d1} {}", rng.below(2))
+                }
                 0 => {
                     let amt = match rng.below(4) {
                         0 => MIN_LIQ,
